@@ -134,6 +134,13 @@ CLAIMED = {
   "text": "Every schedule with at most 2 preemptions (3 in the thorough tier for the two-thread scripts) of each script is executed on the real code; in every execution all results must denote the model's functions and equal the sequentially recomputed handles, no thread may panic or deadlock, and the final structural/reference-count audit and teardown must hold.",
   "note": "sequentially consistent interleavings at the instrumented points only (no weak-memory effects); background-GC condvar wake-up and rayon work stealing replaced by equivalent controlled forks; pointer backend not instrumented",
   "ref": "3/C07"
+ },
+ "C20": {
+  "level": "model_checking",
+  "technique": "differential replay of bounded-exhaustive workloads (all 64x64 operand pairs x 8 connectives x 6 orders x 3 kinds, all depth-3/4 histories over 12 actions, TDD n=1 all tuples) across 4 (thorough: 8) separately built feature configurations x 2-3 worker counts; transcript equality + truth-table model + structural/ref-count audit",
+  "text": "The same recorder source is compiled per configuration; every observation (tables via the harness's interpreter, node counts, orders, gc effects, audit verdicts) of every enumerated operation and history step must equal the model and be identical in all builds.",
+  "note": "MTBDD is index-backend only and therefore excluded; configurations are compared on the recorder's workloads (depth 3/4, n=3)",
+  "ref": "3/C20"
  }
 }
 PENDING = {}
